@@ -25,8 +25,10 @@ from . import common
 from . import c01_corpus as corpus
 from . import c01_lib
 from . import c01_obj
+from . import c01_coerce
+from . import c01_literals
 
-LEAN_TARGETS = ["TsrunVerif.Props.C01", "TsrunVerif.Props.C01Parse", "TsrunVerif.Props.C01Lib", "TsrunVerif.Props.C01Obj"]
+LEAN_TARGETS = ["TsrunVerif.Props.C01", "TsrunVerif.Props.C01Parse", "TsrunVerif.Props.C01Lib", "TsrunVerif.Props.C01Obj", "TsrunVerif.Props.C01Coerce"]
 THEOREMS = ["TsrunVerif.Ops." + t for t in [
     "numEq_symm", "strictEq_symm", "looseEq_symm", "looseEq_of_strictEq", "nan_never_equal", "null_looseEq_iff", "typeOf_closed",
     "plus_string_left", "plus_string_right", "add_comm", "neg_neg", "lt_irrefl", "nan_relational_false", "not_not",
@@ -43,8 +45,13 @@ THEOREMS = ["TsrunVerif.Ops." + t for t in [
         "with_isSome_iff", "with_length", "findFrom_spec", "indexOf_first", "indexOf_from_beyond", "substring_swap", "substring_neg", "padStart_length", "repeat_spec"]] + \
     ["TsrunVerif.Obj." + t for t in [
         "lookup_append_miss", "lookup_nearest", "lookup_none_iff", "forIn_mem_iff", "forInKeys_mem_iff", "forInKeys_has", "forIn_nodup", "forInKeys_own_first",
-        "resolveCall_spec", "resolveNew_spec", "new_call_agree", "bind_compose", "bound_this_fixed"]]
+        "resolveCall_spec", "resolveNew_spec", "new_call_agree", "bind_compose", "bound_this_fixed"]] + \
+    ["TsrunVerif.Coerce." + t for t in [
+        "toPrim_exclusive", "string_hint_toString_first", "number_hint_valueOf_first", "first_primitive_suffices", "calls_at_most_once", "no_primitive_typeError",
+        "both_left_first", "strict_never_converts", "nullish_eq_no_convert", "prim_passthrough"]]
 ASSUMPTIONS = [
+    "M-Coerce abstracts an object operand to what its valueOf / toString / [Symbol.toPrimitive] do when called (return a primitive, return an object, throw, not callable); Date (hint string by default), "
+    "wrapper objects, Symbol values and BigInt are outside it; on primitive operands it is M-Ops (prim_passthrough)",
     "M-Obj: an ordinary object is its list of own data properties (key, value, enumerable) in own-key order with distinct non-index string keys, a receiver is its prototype chain; accessors, index keys, symbols, "
     "proxies in the chain and exotic objects are outside it. Bound functions are bind layers over a target; the number of layers and of arguments is unbounded in the theorems",
     "M-Lib composes ToIntegerOrInfinity, the relative index and the clamp exactly as ECMA-262 does for slice, splice/toSpliced, at, with, fill, copyWithin, indexOf/includes, lastIndexOf, substring, substr, String slice, charAt, "
@@ -370,6 +377,21 @@ def part_library(ctx, ref):
     ctx.notes.append("library: %d calls over %d entry points (%d without reference)" % (len(exprs), len(fams), miss))
 
 
+def part_literals(ctx, ref):
+    """PROP: every spelling of string / numeric / template literals (escapes, radix prefixes, separators, exponents, BigInt suffix,
+    malformed forms) evaluates - or is rejected - as by the reference engine"""
+    exprs = c01_literals.cases(ctx.rng, ctx.tier)
+    got = eval_exprs(run_tsrun, exprs, size=25)
+    refv = ref.exprs(exprs)
+    # a literal the reference engine rejects is not a well-formed program (tsrun accepts some: `08`, `1__0`, `0x`): outside this property
+    keep = [i for i, r in enumerate(refv) if r is None or "SyntaxError" not in r]
+    ctx.notes.append("literals: %d of %d spellings are rejected by the reference engine and not compared" % (len(exprs) - len(keep), len(exprs)))
+    exprs, got, refv = [exprs[i] for i in keep], [got[i] for i in keep], [refv[i] for i in keep]
+    miss = compare_ref(ctx, "literal", exprs, got, refv)
+    ctx.cov["distinct_nontrivial"] += len(set(got))
+    ctx.notes.append("literals: %d literal expressions (%d without reference)" % (len(exprs), miss))
+
+
 def part_forms(ctx, ref):
     """PROP without a reference: equivalent spellings give equal results on tsrun"""
     pairs = corpus.form_pairs(ctx.rng, ctx.tier)
@@ -583,6 +605,36 @@ def part_grammar(ctx, ref):
                      % (len(cases), len(bad), json.dumps(hist, sort_keys=True), len(forms)))
 
 
+def part_coerce_model(ctx, ref):
+    """CORR / PROP: M-Coerce (ToPrimitive and the operators over object operands) == tsrun == reference engine, results and call logs"""
+    cs = c01_coerce.cases(ctx.rng, ctx.tier)
+    model = common.driver(["coerce"], [m for m, _ in cs])
+    exprs = [js for _, js in cs]
+    got = eval_exprs(run_tsrun, exprs, size=100)
+    refv = eval_exprs(lambda ps: run_node(ref.node, ps), exprs, size=100) if ref.node else [None] * len(exprs)
+
+    def plain(v):
+        if v is not None and v.startswith("s:"):
+            try:
+                return json.loads(v[2:])
+            except ValueError:
+                return v
+        return v
+    for (m, js), mo, g, r in zip(cs, model, got, refv):
+        ctx.cov["evaluations"] += 1
+        ctx.cov["traces_validated_against_impl"] += 1
+        e = c01_coerce.expected(mo)
+        if "bad-case" in mo or "unmodelled" in mo:
+            ctx.corr_fail("M-Coerce driver rejected a generated case", m, mo, g)
+        elif r is not None and plain(r) != e:
+            ctx.corr_fail("M-Coerce differs from the reference engine (the model is wrong)", {"case": m, "expr": js[:600]}, e, plain(r))
+        elif plain(g) != e:
+            ctx.prop_fail("coercion: tsrun differs from M-Coerce (and the reference engine) on an operator over object operands (result | conversion calls)",
+                          {"expr": js[:2000], "tsrun": plain(g), "ref": e, "model_case": m})
+    ctx.cov["distinct_nontrivial"] += len(set(model))
+    ctx.notes.append("coerce model: %d operator applications over primitives and objects with every valueOf / toString / Symbol.toPrimitive behaviour" % len(cs))
+
+
 def part_obj_model(ctx, ref):
     """CORR / PROP: M-Obj (prototype-chain lookup, for-in, bound functions) == tsrun == reference engine"""
     cs = c01_obj.cases(ctx.rng, ctx.tier)
@@ -663,8 +715,10 @@ def run(ctx):
     part_grammar(ctx, ref)
     part_lib_model(ctx, ref)
     part_obj_model(ctx, ref)
+    part_coerce_model(ctx, ref)
     part_operators(ctx, ref)
     part_library(ctx, ref)
+    part_literals(ctx, ref)
     part_forms(ctx, ref)
     part_programs(ctx, ref)
     ctx.notes.append("reference engine: %s; cases by source %s" % ("node " + subprocess.run([ref.node, "--version"], capture_output=True, text=True).stdout.strip() if ref.node else "golden file only", json.dumps(ref.stats)))
